@@ -139,12 +139,14 @@ func tracedMine(ver string, workers int, data []byte, target float64, cancelAfte
 				panicked = true
 			}
 		}()
+		// long-lived Workers (one per version and worker count), as an application would keep them: state that a change
+		// makes a Worker carry from one Mine call to the next is then exercised by every scenario (seeded change C13-h)
 		if ver == "v1" {
-			nonce, err = pow.New(workers).Mine(ctx, data, target)
+			nonce, err = sharedWorkerV1(workers).Mine(ctx, data, target)
 		} else if ver == "v2exact" {
-			nonce, err = powv2.New(workers).Mine(ctx, data, v2Target)
+			nonce, err = sharedWorkerV2(workers).Mine(ctx, data, v2Target)
 		} else {
-			nonce, err = powv2.New(workers).Mine(ctx, data, uint64(target))
+			nonce, err = sharedWorkerV2(workers).Mine(ctx, data, uint64(target))
 		}
 	}()
 	// watchdog: every scenario either has an attainable target or is cancelled, so Mine must return; a call that
@@ -255,6 +257,90 @@ func mineRuntime(result string, leaked int, elapsed time.Duration, cancels bool)
 	return "ok"
 }
 
+func sharedWorkerV1(workers int) *pow.Worker {
+	if sharedV1[workers] == nil {
+		sharedV1[workers] = pow.New(workers)
+	}
+	return sharedV1[workers]
+}
+
+func sharedWorkerV2(workers int) *powv2.Worker {
+	if sharedV2[workers] == nil {
+		sharedV2[workers] = powv2.New(workers)
+	}
+	return sharedV2[workers]
+}
+
+// reuseAfterCancel (seeded change C13-h: the stop flag moved from a local of Mine into the Worker): on ONE Worker, a Mine
+// call that succeeds at once, whose context is cancelled the moment it has returned — so that its watcher goroutine, if it
+// has not reached its select yet, may still take the ctx.Done() arm — followed at once by a second Mine call with a context
+// that is never cancelled and a target that needs several hundred batches. The second call must return a nonce; with one
+// processor the late watcher is the rule rather than the exception. Returns the mine.runtime verdict.
+func reuseAfterCancel(ver string, workers int, data1, data2 []byte) string {
+	mineMu.Lock()
+	defer mineMu.Unlock()
+	old := runtime.GOMAXPROCS(1)
+	defer runtime.GOMAXPROCS(old)
+	before := runtime.NumGoroutine()
+	pending(fmt.Sprintf("Mine twice on one Worker version=%s workers=%d data=%x then %x", ver, workers, data1, data2))
+	defer pending("")
+	type res struct {
+		nonce uint64
+		err   error
+	}
+	done := make(chan res, 1)
+	go func() {
+		defer func() {
+			if e := recover(); e != nil {
+				done <- res{0, fmt.Errorf("panic: %v", e)}
+			}
+		}()
+		ctx1, cancel1 := context.WithCancel(context.Background())
+		var r res
+		if ver == "v1" {
+			_, r.err = sharedWorkerV1(workers).Mine(ctx1, data1, 0.1)
+		} else {
+			_, r.err = sharedWorkerV2(workers).Mine(ctx1, data1, 1)
+		}
+		cancel1()
+		if r.err != nil {
+			done <- r
+			return
+		}
+		if ver == "v1" {
+			r.nonce, r.err = sharedWorkerV1(workers).Mine(context.Background(), data2, 3000)
+		} else {
+			r.nonce, r.err = sharedWorkerV2(workers).Mine(context.Background(), data2, 3000)
+		}
+		done <- r
+	}()
+	select {
+	case r := <-done:
+		if r.err == pow.ErrCancelled || r.err == powv2.ErrCancelled {
+			return "cancelled-without-cancel"
+		}
+		if r.err != nil {
+			return "error:" + r.err.Error()
+		}
+		msg := make([]byte, len(data2)+8)
+		copy(msg, data2)
+		binary.LittleEndian.PutUint64(msg[len(data2):], r.nonce)
+		if ver == "v1" && !(pow.Score(msg) >= 3000) || ver != "v1" && powv2.Score(msg) < 3000 {
+			return fmt.Sprintf("error:low-score nonce=%d", r.nonce)
+		}
+	case <-time.After(120 * time.Second):
+		return "HANG"
+	}
+	deadline := time.Now().Add(200 * time.Millisecond)
+	for runtime.NumGoroutine() > before && time.Now().Before(deadline) {
+		time.Sleep(time.Millisecond)
+	}
+	if n := runtime.NumGoroutine() - before; n > 0 {
+		return fmt.Sprintf("goroutines-leaked:%d", n)
+	}
+	return "ok"
+}
+
 func genC13(g *G) {
 	type scen struct {
 		ver     string
@@ -322,6 +408,16 @@ func genC13(g *G) {
 				_, result, leaked, elapsed := tracedMine(ver, w, g.r.bytes(8), t, -1, false)
 				g.emit("mine.runtime", mineRuntime(result, leaked, elapsed, false))
 			}
+		}
+	}
+	// two calls on one Worker, the first context cancelled right after its call returned
+	pairs := 6
+	if g.thorough {
+		pairs = 40
+	}
+	for r := 0; r < pairs; r++ {
+		for _, ver := range []string{"v1", "v2"} {
+			g.emit("mine.runtime", reuseAfterCancel(ver, 1+r%2, g.r.bytes(g.r.intn(12)), g.r.bytes(8)))
 		}
 	}
 	reps := 1
